@@ -26,7 +26,7 @@ RULE = (
     "prefer_truncation settings. Distinct by (TSIG, pad, prefer_truncation, outcome, how many RRsets survived mod 8, limit class)."
 )
 RULE += " " + (
-    "Also: OPT records larger than the limit; direct-Renderer drill with reserve/release rounds; more than 64 KiB of records under limits >= 65536; first renderings with the TSIG placeholder."
+    "Also: OPT records larger than the limit; direct-Renderer drill with reserve/release rounds; more than 64 KiB of records under limits >= 65536; first renderings with the TSIG placeholder. Responses to an advertised payload size; add_tsig on the direct renderer."
 )
 ASSUMPTIONS = [
     "reference wire walker and name decoder; RDATA decoded with dns.rdata.from_wire (C02)",
